@@ -4,10 +4,20 @@
    node iff one of its commands, analysed alone by the reference preprocessor from
    a fresh state, reaches it). *)
 From Coq Require Import Bool Arith ZArith String List Permutation.
-From CBI Require Import Lib.Res Model.C01 Spec.C01 Model.C04 Spec.C04 Model.C08 Spec.C08 Proofs.C08.
+From CBI Require Import Lib.Res Model.C01 Spec.C01 Model.C04 Spec.C04 Gen.C08_tables Model.C08 Spec.C08 Proofs.C08.
 Import ListNotations.
 Local Open Scope string_scope.
 Local Open Scope list_scope.
+
+(* The tie to the source: tools/gen/c08_tables.py reads from finder.find where
+   `file_platform = platform.Platform(p, rootdir)` stands.  The theorems below are about
+   the model selected by that constant; they are proved for the per-entry placement, so
+   this statement (and with it the whole file) stops checking if the source hoists it. *)
+Theorem C08_platform_per_entry :
+  platform_created = PerEntry /\
+  forall fs fuel cfg, find_M fs fuel cfg = find_G fs fuel carry_none cfg [].
+Proof. split; reflexivity. Qed.
+Print Assumptions C08_platform_per_entry.
 
 (* For EVERY file system of structured files, every include depth, every code base
    and every configuration (any number of platforms and commands, any sharing of
